@@ -1,3 +1,6 @@
 -- Root of the `GormModel` library: model files (core-only) and property theorems.
 import GormModel.Model.Limit
 import GormModel.Model.Batches
+import GormModel.Model.Pipeline
+import GormModel.Props.C15
+import GormModel.Props.C19
